@@ -168,3 +168,37 @@ contract(
                   clause="forall(lambda k: forall_str(lambda x: implies(x in self.contexts[k], x in old(self.contexts)[k])), 0, len(self.contexts))")],
     from_property="deleting the name returns later lines to command interpretation (del only ever removes names; which one: ctxremove's contract)",
 )
+
+
+# ---- with / for: every `as` target (for: the loop target) is bound, whatever stands before it -----------------------------------
+WITHITEM = Rec("withitem", optional_vars=Union(NoneT, Opaque("target")))
+WITH = Obj("With", items=Seq(WITHITEM))
+GATHER_EXT = dict(NAMES_EXT)
+GATHER_EXT.update({"gather_names": Ext(ret=Seq(Str), pure=True, uf="names_of", note="the names a target binds (helper not verified)"),
+                   "names_of": Ext(ret=Seq(Str), pure=True, uf="names_of")})
+T_W = Obj("CtxAwareTransformer", contexts=CTXS, _nwith=Int)
+BOUND_W = "forall(lambda j: implies(node.items[j].optional_vars is not None, forall(lambda m: names_of(node.items[j].optional_vars)[m] in %s, 0, len(names_of(node.items[j].optional_vars)))), 0, %%s)" % TOP
+contract(
+    A + "CtxAwareTransformer.visit_With", "C02", params=dict(self=T_W, node=WITH), modifies=["self.contexts", "self"], externals=GATHER_EXT,
+    calls={"CtxAwareTransformer.ctxupdate": A + "CtxAwareTransformer.ctxupdate"},
+    requires={"inside-a-transform": "len(self.contexts) >= 2"},
+    loops={"for#1": dict(invariant={
+        "every-`as`-target-so-far-is-bound": "len(self.contexts) == pre(len(self.contexts)) and " + BOUND_W % "_i",
+        "other-scopes-untouched": "forall(lambda k: self.contexts[k] == pre(self.contexts)[k], 0, len(self.contexts) - 1)",
+        "innermost-scope-only-grows": "forall_str(lambda x: implies(x in pre(self.contexts)[len(self.contexts) - 1], x in %s))" % TOP},
+        havoc_only=[], havoc_exprs=["self.contexts"])},
+    asserts=[dict(before="self._nwith += 1", label="every-`as`-target-of-every-item-is-bound-before-the-body-is-visited",
+                  clause="len(self.contexts) == old(len(self.contexts)) and " + BOUND_W % "len(node.items)" + " and " + SAME_BELOW)],
+    ensures={"depth-kept": "len(self.contexts) == old(len(self.contexts))"},
+    from_property="bound earlier in the same source by ... with (every item of a multi-item with, whether or not the items before it have an `as`)",
+)
+FOR = Obj("For", target=Opaque("target"))
+contract(
+    A + "CtxAwareTransformer.visit_For", "C02", params=dict(self=T_, node=FOR), modifies=["self.contexts"], externals=GATHER_EXT,
+    calls={"CtxAwareTransformer.ctxupdate": A + "CtxAwareTransformer.ctxupdate"},
+    requires={"inside-a-transform": "len(self.contexts) >= 2"}, locals={"targ": Opaque("target")},
+    asserts=[dict(before="self.generic_visit(node)", label="the-loop-target-is-bound-before-the-body-is-visited",
+                  clause="len(self.contexts) == old(len(self.contexts)) and forall(lambda m: names_of(node.target)[m] in %s, 0, len(names_of(node.target))) and %s" % (TOP, SAME_BELOW))],
+    ensures={"depth-kept": "len(self.contexts) == old(len(self.contexts))"},
+    from_property="bound earlier in the same source by ... for",
+)
